@@ -893,7 +893,10 @@ func vxEnumerate(maxNodes int, emit func(build func() vxCase)) {
 	}
 	// I. unresolvable references
 	for _, mode := range []string{"linear-unknown-sensor", "linear-no-sensor", "pid-unknown-sensor", "pid-no-sensor", "function-unknown-curve",
-		"fan-unknown-curve", "fan-no-curve", "fan-empty-curve", "function-references-sensor-id", "fan-references-sensor-id"} {
+		"fan-unknown-curve", "fan-no-curve", "fan-empty-curve", "function-references-sensor-id", "fan-references-sensor-id",
+		// near misses: references that differ from a defined id only in letter case, or are a prefix / an extension of it
+		"linear-sensor-case", "pid-sensor-case", "function-curve-case", "fan-curve-case",
+		"linear-sensor-prefix", "function-curve-prefix", "fan-curve-prefix", "linear-sensor-extended", "function-curve-extended", "fan-curve-extended"} {
 		mode := mode
 		emit(func() vxCase {
 			c := vxCase{Family: "refs", Desc: mode}
@@ -922,6 +925,26 @@ func vxEnumerate(maxNodes int, emit func(build func() vxCase)) {
 				c.Curves[2].Members = []string{"c0", "s0"}
 			case "fan-references-sensor-id":
 				c.Fans[0].Curve = "s0"
+			case "linear-sensor-case":
+				c.Curves[0].Sensor = "S0"
+			case "pid-sensor-case":
+				c.Curves[1].Sensor = "S0"
+			case "function-curve-case":
+				c.Curves[2].Members = []string{"c0", "C1"}
+			case "fan-curve-case":
+				c.Fans[0].Curve = "C2"
+			case "linear-sensor-prefix":
+				c.Curves[0].Sensor = "s"
+			case "function-curve-prefix":
+				c.Curves[2].Members = []string{"c0", "c"}
+			case "fan-curve-prefix":
+				c.Fans[0].Curve = "c"
+			case "linear-sensor-extended":
+				c.Curves[0].Sensor = "s00"
+			case "function-curve-extended":
+				c.Curves[2].Members = []string{"c0", "c10"}
+			case "fan-curve-extended":
+				c.Fans[0].Curve = "c20"
 			}
 			return c
 		})
